@@ -888,6 +888,75 @@ def spaces(tier, variant, seed):
         R.count("states", 40)
         return (kind, nbits)
 
+    # text readers grow their token buffer by reallocation: every token length 1..N (each growth boundary is some length), followed by
+    # EOF / white space / a non-digit, read under the recording allocator (exact-size contract, guard bytes right behind every block)
+    TOKN = 1200 if quick else 4200
+
+    def tk_cases(blk):
+        ty, lo = blk
+        for ln in range(lo, min(lo + 50, TOKN + 1)):
+            for term in (0, 1, 2):
+                yield (ty, ln, term)
+
+    def tk_one(case, R):
+        ty, ln, term = case
+        e = env()
+        vs = stream()
+        digs = "".join("123456789"[(i * 7 + ln) % 9] for i in range(ln))
+        if ty == "q" and ln >= 3:
+            digs = digs[:ln // 2] + "/" + digs[ln // 2 + 1:]
+        if ty == "f" and ln >= 5:
+            digs = digs[:ln // 3] + "." + digs[ln // 3 + 1:ln - 3] + "e12"
+        data = (digs + ["", " 5", ")"][term]).encode()
+        before = lib.live_blocks()
+        if ty == "z":
+            o = e["Z"][0]
+            o.set(7, alloc=1)
+            fp = S.v_open_read(vs, data, len(data), -1, 0, 0, 0)
+            r = f_inp_str(o.p, fp, 10)
+            val = o.get()
+            exp = int(digs)
+        elif ty == "q":
+            o = e["Q"][0]
+            o.set(7, 2)
+            fp = S.v_open_read(vs, data, len(data), -1, 0, 0, 0)
+            r = f_qinp(o.p, fp, 10)
+            val = o.raw()
+            exp = (int(digs.split("/")[0]), int(digs.split("/")[1])) if "/" in digs else (int(digs), 1)
+        else:
+            o = e["F"][0]
+            o.set_frac(Fraction(7, 2))
+            fp = S.v_open_read(vs, data, len(data), -1, 0, 0, 0)
+            r = f_finp(o.p, fp, 10)
+            val = exp = None
+        S.v_fclose(fp)
+        nm = "mp%s_inp_str" % ty
+        # (mpf_inp_str delimits its token by white space only, so a following ')' belongs to the token; what mpf_set_str then makes of
+        # it is not asserted here - the memory discipline below is)
+        if r != len(digs) and not (ty == "f" and term == 2):
+            R.fail(nm, "token of %d characters (terminator %d): returned %d" % (len(digs), term, r))
+        if exp is not None and val != exp:
+            R.fail(nm, "token of %d characters: wrong value" % len(digs))
+        m = o.wf(canonical=False) if ty == "q" else o.wf()
+        if m:
+            R.fail(nm, "token of %d characters: destination ill-formed: %s" % (len(digs), m))
+        if lib.alloc_errors() or S.v_check_guards():
+            R.fail(nm, "token of %d characters: %s" % (len(digs), lib.alloc_msg()))
+            S.v_reset_errors()
+        if ty == "z":
+            o.set(0, alloc=1)
+        elif ty == "q":
+            o.set(0, 1)
+            lib._zset_at(o.np, 0, 1)
+            lib._zset_at(o.dp, 1, 1)
+        if ty != "f" and lib.live_blocks() != before:
+            R.fail(nm, "token of %d characters: blocks %d -> %d" % (len(digs), before, lib.live_blocks()))
+        R.count("states", 1)
+        return (ty, ln < 100, term)
+
+    sp.append(Space("inp_str_token_lengths", [(ty, lo) for ty in "zqf" for lo in range(1, TOKN + 1, 50)], tk_cases, tk_one,
+                    "mpz/mpq/mpf_inp_str: EVERY token length 1..%d x three terminators (EOF, white space, non-digit): count, value, well-formedness, allocator contract and guard bytes (the token buffer grows by reallocation at some lengths)" % TOKN))
+
     sp.append(Space("streams_and_random_floats", ["raw", "txt", "furb"], tr_cases, tr_one,
                     "mpz_inp_raw / mpz,mpq,mpf_inp_str on streams cut after every byte (EOF and error): destination stays well formed and usable, no block lost; mpf_urandomb results obey the mpf format (zero has exponent 0)"))
     return sp
